@@ -625,11 +625,9 @@ func (r *replicateChannelManager) AddPartition(ctx context.Context, dbInfo *mode
 
 func (r *replicateChannelManager) StopReadCollection(ctx context.Context, info *pb.CollectionInfo) error {
 	for _, channel := range info.GetPhysicalChannelNames() {
-		handler := r.stopReadChannel(channel, info.ID)
-		if handler == nil {
-			continue
-		}
-		handler.Close()
+		// stopReadChannel removes the collection from its handler and closes the collection's own stream;
+		// the handler keeps serving the other collections that share the source channel
+		r.stopReadChannel(channel, info.ID)
 	}
 	r.collectionLock.Lock()
 	closeChan, ok := r.replicateCollections[info.ID]
